@@ -37,6 +37,7 @@ PLANS = {
         sim=[("Sim_Core_down.cfg", 250, 2500, 45)],
         dump=None,
         random=dict(n=200, n_thorough=2500, length=34, with_down=True, with_state_loss=True),
+        directed=True,
         invariants=["C04_AckMeansReplicaAtLocalPos", "C04_ResnapshotAfterLoss", "C01_RestoreEqualsSource"],
         witnesses=["F1", "F2", "F3"],
         nontrivial="distinct schedule in which litestream was stopped/reset/lost state and application activity happened before the next acknowledgement",
@@ -64,6 +65,33 @@ PLANS = {
         nontrivial="distinct schedule with litestream steps interleaved with application writes, replayed twice (with/without litestream)",
     ),
 }
+
+
+def directed_c04():
+    """Disturbance shapes x relative lengths (DESIGN 7/C04): what happens while litestream is down, enumerated."""
+    out = []
+    W = lambda k: [["AppWrite", 1 + (j % 5)] for j in range(k)]
+    SY = lambda k: sum([[["AppWrite", 1 + (j % 5)], ["LsSyncAndWait"]] for j in range(k)], [])
+    tail = [["AppWrite", 2], ["LsSyncAndWait"], ["AppWrite", 3], ["LsSyncAndWait"], ["LsClose"]]
+    for a in (1, 2, 3):
+        for b in (1, 2, 4):
+            for reopen in ("new", "same"):
+                # the whole directory (db + WAL + state dir) rolled back to an older copy while the replica moved on
+                out.append([["LsOpen", "new"]] + SY(a) + [["LsClose"], ["SaveAll"], ["LsOpen", reopen]] + SY(b) +
+                           [["LsClose"], ["RestoreAll"], ["LsOpen", reopen]] + tail)
+                # only the database file replaced by an older version
+                out.append([["LsOpen", "new"]] + SY(a) + [["LsClose"], ["SaveCopy"], ["LsOpen", reopen]] + SY(b) +
+                           [["LsClose"], ["ReplaceDb"], ["LsOpen", reopen]] + tail)
+                # application activity while down: writes, then a checkpoint of each mode, then c more writes
+                for mode in ("PASSIVE", "FULL", "RESTART", "TRUNCATE"):
+                    for c in (0, 1, a + b + 2):
+                        out.append([["LsOpen", "new"]] + SY(a) + [["LsClose"]] + W(b) + [["AppCheckpoint", mode]] + W(c) +
+                                   [["LsOpen", reopen]] + tail)
+                # last application connection closed while down (WAL removed), state directory lost, both
+                out.append([["LsOpen", "new"]] + SY(a) + [["LsClose"]] + W(b) + [["AppClose"], ["AppOpen"]] + W(1) + [["LsOpen", reopen]] + tail)
+                out.append([["LsOpen", "new"]] + SY(a) + [["LsClose"]] + W(b) + [["MetaLost"], ["LsOpen", "new"]] + tail)
+                out.append([["LsOpen", "new"]] + SY(a) + [["LsSync"], ["LsReset"]] + W(b) + [["LsSyncAndWait"]] + tail)
+    return out
 
 
 def build_cases(plan, tier, seed, wd, rep):
@@ -98,6 +126,13 @@ def build_cases(plan, tier, seed, wd, rep):
         scheds.append(("random", s, None))
     for w in plan.get("witnesses", []):
         scheds.append(("witness:" + w, WITNESS[w], None))
+    if plan.get("directed"):
+        ds = directed_c04()
+        if not thorough:
+            rnd.shuffle(ds)
+            ds = ds[:150]
+        for d in ds:
+            scheds.append(("directed", d, None))
     # de-duplicate driver schedules
     seen, cases = set(), []
     sizes = corelib.PAGE_SIZES_ALL if thorough else corelib.PAGE_SIZES_QUICK
